@@ -58,6 +58,86 @@ def _helper_clamps(g):
     return "clamped-nan-safe" if nan_safe else "clamped"
 
 
+_INLINE_CACHE = {}
+
+
+def _inline_one_call(f, ex, F, names):
+    """replace one call of a crate-local helper of the same file (or of a closure, through
+    Fn::call) inside the box expressions by what it returns, one variant per return
+    definition with the branch facts of that definition; None when there is nothing to inline"""
+    from ..engines.validators import subst as esubst
+    from ..engines.formulas import _project
+    prog = f.prog
+
+    def find(e, depth=0):
+        if not isinstance(e, tuple) or not e or depth > 40:
+            return None
+        if isinstance(e[0], tuple):
+            for x in e:
+                r = find(x, depth + 1)
+                if r is not None:
+                    return r
+            return None
+        if e[0] in ("call", "callat"):
+            args = e[2] if e[0] == "call" else e[3]
+            for a in args:          # innermost first
+                r = find(a, depth + 1)
+                if r is not None:
+                    return r
+            nm = e[1] if e[0] == "call" else e[2]
+            rid = e[4] if e[0] == "callat" else e[3]
+            g = prog.fns.get(rid) if isinstance(rid, str) else None
+            if g is not None and (g.file == f.file) and nm not in ("clamp", "max", "min"):
+                if g.kind == "closure" and not (nm == "call" and len(args) == 2 and args[1][0] == "agg"):
+                    return None
+                return e
+            return None
+        for x in e[1:]:
+            if isinstance(x, tuple):
+                r = find(x, depth + 1)
+                if r is not None:
+                    return r
+        return None
+    call = None
+    for nm in names:
+        call = find(ex[nm])
+        if call is not None:
+            break
+    if call is None:
+        return None
+    args = call[2] if call[0] == "call" else call[3]
+    g = prog.fns[call[4] if call[0] == "callat" else call[3]]
+    if g.id not in _INLINE_CACHE:
+        gs = Sym(g)
+        rets = []
+        ok = True
+        for (bb, j, rv, whole) in g.defs().get(0, []):
+            if not whole:
+                ok = False
+            rets.append((gs.rvalue(rv, bb, (bb, j)), list(gs.facts_at(bb))))
+        if not rets or len(rets) > 8:
+            ok = False
+        _INLINE_CACHE[g.id] = rets if ok else None
+    rets = _INLINE_CACHE[g.id]
+    if rets is None:
+        return None
+    if g.kind == "closure":
+        mapping = {("param", 1, g.local_name(1)): args[0]}
+        for i, a in enumerate(args[1][4]):
+            mapping[("param", i + 2, g.local_name(i + 2))] = a
+    else:
+        mapping = {("param", i + 1, g.local_name(i + 1)): a for i, a in enumerate(args)}
+    out = []
+    for (r, facts) in rets:
+        if any(l for l in _locals_left(r)) if False else False:
+            return None
+        r2 = esubst(r, mapping)
+        ex2 = {nm: _project(esubst(ex[nm], {call: r2})) for nm in names}
+        F2 = F + [(_project(esubst(c, mapping)), v) for c, v in facts]
+        out.append((ex2, F2))
+    return out
+
+
 def box_variants(f, sym):
     """the CropBox aggregates of f with computed margins, one variant per consistent choice of
     the definitions of the multi-definition locals they depend on (tuples assigned in the
@@ -91,7 +171,11 @@ def box_variants(f, sym):
                     if multi:
                         break
                 if multi is None:
-                    done.append((ex, F))
+                    inl = _inline_one_call(f, ex, F, names)
+                    if inl is None:
+                        done.append((ex, F))
+                    else:
+                        work.extend(inl)
                     continue
                 a, ds = multi
                 keep = [d for d in ds if _consistent(sym.facts_at(d[0]), F)]
